@@ -144,6 +144,38 @@ def make_case(args):
         except Exception as e:
             rec["crash"] = f"{type(e).__name__}: {str(e)[:240]}"
         out.append(rec)
+    # window / regridding operations with BOTH spectral dimensions split into several chunks (a running mean or an interpolation
+    # evaluated block by block would see incomplete windows at the chunk edges), on arrays and on Datasets with side variables
+    import xarray as xr
+
+    dw, auxw = make_world(rng, nf=rng.choice([8, 11]), nd=rng.choice([12, 18]))
+    chw = {d: (-1 if d not in ("freq", "dir") else (3 if d == "freq" else 5)) for d in dw.dims}
+    if rng.random() < 0.5:
+        chw[[d for d in dw.dims if d not in ("freq", "dir")][0]] = 1
+    dsw = dw.to_dataset(name="efth")
+    for k, v in auxw.items():
+        dsw[k] = v
+    W = {"smooth33": lambda x: x.spec.smooth(3, 3), "smooth51": lambda x: x.spec.smooth(5, 1), "smooth15": lambda x: x.spec.smooth(1, 5),
+         "interp": C["interp"], "interp_like": C["interp_like"], "rotate_any": C["rotate_any"], "split": C["split"], "ptm5": C["ptm5"],
+         "ds.interp": None, "ds.smooth": None, "ds.interp_like": None}
+    for op in rng.sample(sorted(W), 4):
+        rec = dict(op=f"window:{op}", icase=icase, chunks={k: v for k, v in chw.items()}, scheduler="synchronous", workers=None, dims=list(dw.dims),
+                   shape=[int(dw.sizes[d]) for d in dw.dims], spectral_split=True)
+        try:
+            if op.startswith("ds."):
+                f = {"ds.interp": lambda x: x.spec.interp(freq=opcat._mid(x.freq.values), dir=np.arange(0.0, 360.0, 30.0)),
+                     "ds.smooth": lambda x: x.spec.smooth(3, 3), "ds.interp_like": lambda x: x.spec.interp_like(opcat._coarser(x.efth))}[op]
+                ref = opcat.canon(compute(f(dsw)))
+                got = opcat.canon(compute(f(dsw.chunk(chw)), scheduler="synchronous"))
+            else:
+                f = W[op]
+                ref = opcat.canon(compute(f(dw, auxw) if op in C else f(dw)))
+                dcw = dw.chunk(chw)
+                got = opcat.canon(compute(f(dcw, auxw) if op in C else f(dcw), scheduler="synchronous"))
+            rec["diff"] = opcat.compare(got, ref, rel=2e-5 if str(dw.dtype) == "float32" else 1e-9)
+        except Exception as e:
+            rec["crash"] = f"{type(e).__name__}: {str(e)[:240]}"
+        out.append(rec)
     # storage variants of the in-memory block that dask's rechunking removes (it concatenates chunks into fresh C-ordered
     # arrays): direction-major storage and strided views, float32 and float64, spectral dimensions split
     if icase % 3 == 1:
